@@ -470,8 +470,8 @@ class IndexLevel:
                 node = node.targets[node.index._loc_to_iloc(k)]
                 pos += node.offset
             else: # targets is None, meaning we are at max depth
-                # k returns an integer
-                offset = node.index._loc_to_iloc(k)
+                # k returns an integer; NOTE: an offset (even zero) makes an index without a map (labels are positions) verify that it holds the label
+                offset = node.index._loc_to_iloc(k, offset=0)
                 assert isinstance(offset, INT_TYPES) # enforces leaf loc
                 if key_depth == key_depth_max:
                     return pos + offset
